@@ -54,7 +54,7 @@ func candidateEdits(t Tape) []edit {
 		name := name
 		for i, c := range t[name] {
 			switch c.Label {
-			case "ntasks", "nkeys", "npoints", "nscalars", "nfocus":
+			case "ntasks", "ncrowd", "nkeys", "npoints", "nscalars", "nfocus":
 			default:
 				continue
 			}
